@@ -9,6 +9,7 @@ import (
 	"go/token"
 	"go/types"
 	"strings"
+	"unicode"
 )
 
 // VArrLit is a package-level array/slice composite literal indexed by an integer.
@@ -214,6 +215,9 @@ func (fx *FuncCtx) globalVal1(obj *types.Var, e *Ev) Val {
 			}
 		}
 	}
+	if rt, ok := fx.rangeTableOf(init, gi.info, obj.Name()); ok {
+		return rt
+	}
 	if cl, ok := init.(*ast.CompositeLit); ok {
 		switch u := t.Underlying().(type) {
 		case *types.Map:
@@ -250,7 +254,125 @@ func (fx *FuncCtx) globalVal1(obj *types.Var, e *Ev) Val {
 }
 
 func (fx *FuncCtx) externVar(obj *types.Var, e *Ev) Val {
+	if obj.Pkg().Path() == "unicode" {
+		if rt := stdRangeTable(obj.Name()); rt != nil {
+			return tableRanges("unicode."+obj.Name(), rt)
+		}
+	}
 	panic(unsupported{"external variable " + obj.Pkg().Path() + "." + obj.Name() + " is not modelled"})
+}
+
+func stdRangeTable(name string) *unicode.RangeTable {
+	switch name {
+	case "Noncharacter_Code_Point":
+		return unicode.Noncharacter_Code_Point
+	case "Cc":
+		return unicode.Cc
+	}
+	return nil
+}
+
+func tableRanges(name string, rt *unicode.RangeTable) VRangeTable {
+	v := VRangeTable{Name: name}
+	for _, r := range rt.R16 {
+		if r.Stride != 1 {
+			for c := int64(r.Lo); c <= int64(r.Hi); c += int64(r.Stride) {
+				v.Ranges = append(v.Ranges, [2]int64{c, c})
+			}
+			continue
+		}
+		v.Ranges = append(v.Ranges, [2]int64{int64(r.Lo), int64(r.Hi)})
+	}
+	for _, r := range rt.R32 {
+		if r.Stride != 1 {
+			for c := int64(r.Lo); c <= int64(r.Hi); c += int64(r.Stride) {
+				v.Ranges = append(v.Ranges, [2]int64{c, c})
+			}
+			continue
+		}
+		v.Ranges = append(v.Ranges, [2]int64{int64(r.Lo), int64(r.Hi)})
+	}
+	return v
+}
+
+// rangeTableOf evaluates a *unicode.RangeTable initialiser: a composite literal (R16/R32 with
+// constant bounds, stride 1), a unicode table, or rangetable.Merge of such values (union).
+func (fx *FuncCtx) rangeTableOf(x ast.Expr, info *types.Info, name string) (VRangeTable, bool) {
+	switch y := x.(type) {
+	case *ast.UnaryExpr:
+		if y.Op == token.AND {
+			return fx.rangeTableOf(y.X, info, name)
+		}
+	case *ast.CompositeLit:
+		t := info.TypeOf(y)
+		n, ok := t.(*types.Named)
+		if !ok || n.Obj().Name() != "RangeTable" {
+			return VRangeTable{}, false
+		}
+		v := VRangeTable{Name: name}
+		for _, el := range y.Elts {
+			kv, ok := el.(*ast.KeyValueExpr)
+			if !ok {
+				panic(unsupported{"range table literal without field names"})
+			}
+			fn := kv.Key.(*ast.Ident).Name
+			if fn != "R16" && fn != "R32" {
+				continue // LatinOffset is a search hint that unicode.Is does not consult
+			}
+			for _, re := range kv.Value.(*ast.CompositeLit).Elts {
+				rl := re.(*ast.CompositeLit)
+				var nums []int64
+				for _, ne := range rl.Elts {
+					val := ne
+					if kv2, ok := ne.(*ast.KeyValueExpr); ok {
+						val = kv2.Value
+					}
+					tv := info.Types[val]
+					if tv.Value == nil {
+						panic(unsupported{"non-constant range bound"})
+					}
+					k, _ := constant.Int64Val(tv.Value)
+					nums = append(nums, k)
+				}
+				if len(nums) != 3 || nums[2] != 1 {
+					panic(unsupported{"range with stride other than 1"})
+				}
+				v.Ranges = append(v.Ranges, [2]int64{nums[0], nums[1]})
+			}
+		}
+		return v, true
+	case *ast.SelectorExpr:
+		if id, ok := y.X.(*ast.Ident); ok {
+			if pn, ok := info.Uses[id].(*types.PkgName); ok && pn.Imported().Path() == "unicode" {
+				if rt := stdRangeTable(y.Sel.Name); rt != nil {
+					return tableRanges("unicode."+y.Sel.Name, rt), true
+				}
+			}
+		}
+	case *ast.Ident:
+		if vo, ok := info.Uses[y].(*types.Var); ok && vo.Parent() == vo.Pkg().Scope() {
+			if rt, ok := fx.globalVal(vo, nil).(VRangeTable); ok {
+				return rt, true
+			}
+		}
+	case *ast.CallExpr:
+		if sel, ok := y.Fun.(*ast.SelectorExpr); ok && sel.Sel.Name == "Merge" {
+			if id, ok := sel.X.(*ast.Ident); ok {
+				if pn, ok := info.Uses[id].(*types.PkgName); ok && strings.HasSuffix(pn.Imported().Path(), "unicode/rangetable") {
+					v := VRangeTable{Name: name}
+					for _, a := range y.Args {
+						rt, ok := fx.rangeTableOf(a, info, name)
+						if !ok {
+							panic(unsupported{"rangetable.Merge of a table that is not modelled"})
+						}
+						v.Ranges = append(v.Ranges, rt.Ranges...)
+					}
+					return v, true
+				}
+			}
+		}
+	}
+	return VRangeTable{}, false
 }
 
 // constExprVal evaluates a table element (constant expression, struct literal of constants, ident).
@@ -359,6 +481,21 @@ func (e *Ev) mapTabLookup(m VMapTab, key Val, n ast.Node) (Val, Term) {
 			cond := sAnd(c.Guard, e.keyEq(key, kv.Key, m.Info))
 			ents = append(ents, ent{cond, e.tableElem(kv.Value, m.Info, elemT)})
 		}
+	}
+	if _, isFunc := elemT.Underlying().(*types.Signature); isFunc {
+		var ch VFuncChoice
+		var oks []Term
+		for _, en := range ents {
+			fr, ok := en.v.(VFuncRef)
+			if !ok {
+				panic(unsupported{"function-valued table entry is not a function"})
+			}
+			cn := e.fx.name(sortBool, "fk", en.c)
+			ch.Conds = append(ch.Conds, cn)
+			ch.Keys = append(ch.Keys, fr.Key)
+			oks = append(oks, cn)
+		}
+		return ch, e.fx.name(sortBool, "mok", sOr(oks...))
 	}
 	acc := e.fx.zero(elemT)
 	var oks []Term
